@@ -149,12 +149,35 @@ Proof. split; [reflexivity|]. split; vm_compute; reflexivity. Qed.
 Print Assumptions C08_refuted_bigint_repr.
 
 (* ---- OPEN (stated, not proved; checked by the Python oracle on every run only) ------- *)
-(* OPEN: / on exact operands: exact result = true quotient (the checked_div route and
-   Rational32::new(l, r) with r > 0 are tied and oracle-checked; no Coq proof yet) *)
-Definition C08_div_exact_stmt : Prop := forall p a b r,
+(* / on exact operands (all 9 representation pairs, both profiles): an exact result is
+   well-formed and is the true quotient.  Covers Rational32::new(l, r) with r of either sign
+   and checked_div with its manual reduce.  The hypothesis "the Debug build does not panic"
+   is the recorded class ratio32-overflow-panic (C08_refuted_ratio32_overflow): under it the
+   Release build computes the same, well-formed value. *)
+Theorem C08_div_exact : forall p a b r,
   wfb a = true -> wfb b = true -> is_exact a = true -> is_exact b = true -> ~ (qv b == 0)%Q ->
   (forall s, num_div Debug a b <> Panic s) ->
   num_div p a b = Ok r -> is_exact r = true -> wfb r = true /\ (qv r * qv b == qv a)%Q.
+Proof. exact div_exact. Qed.
+Print Assumptions C08_div_exact.
+
+(* num-rational's checked_div on positive-denominator operands, any width: unless the Debug
+   build panics (gcd(0, MIN)) the answer is None or the reduced exact quotient *)
+Theorem C08_ratio_checked_div : forall p w a b, 2 <= w -> rok w a -> rok w b -> fst b <> 0 ->
+  (exists s, rchecked_div Debug w a b = Panic s) \/
+  rchecked_div p w a b = Ok None \/
+  exists r, rchecked_div p w a b = Ok (Some r) /\ rwf w r /\ (rq r * rq b == rq a)%Q.
+Proof. exact rchecked_div_spec. Qed.
+Print Assumptions C08_ratio_checked_div.
+
+(* Ratio::new with a denominator of either sign *)
+Theorem C08_ratio_reduce_signed : forall p w n d, 2 <= w ->
+  in_int w n = true -> in_int w d = true -> d <> 0 ->
+  (exists s, rreduce Debug w (n, d) = Panic s) \/
+  exists n' d', rreduce p w (n, d) = Ok (n', d') /\ rwf w (n', d') /\ n' * d = n * d'.
+Proof. exact rreduce_gen. Qed.
+Print Assumptions C08_ratio_reduce_signed.
+
 (* OPEN: op_inexact_only_if outside the recorded fallback classes *)
 Definition C08_inexact_only_if_stmt : Prop := forall p a b r (known_fallback : num -> num -> bool),
   wfb a = true -> wfb b = true -> is_exact a = true -> is_exact b = true ->
@@ -207,6 +230,21 @@ Example C08_example_mixed :
   rchecked_addsub false Debug 32 (1, 3) (1, 6) = Ok (Some (1, 2)) /\
   igcd Debug 32 (- 2 ^ 31) 6 = Ok 2.
 Proof. repeat split; vm_compute; reflexivity. Qed.
+
+(* C08_div_exact: the hypotheses hold on negative divisors, BigInt operands, the manual-reduce
+   route of checked_div; the excluded class is not empty *)
+Example C08_example_div :
+  (forall s, num_div Debug (Fixnum 6) (Fixnum (-4)) <> Panic s) /\
+  num_div Release (Fixnum 6) (Fixnum (-4)) = Ok (Rational (-3) 2) /\
+  (forall s, num_div Debug (Rational 3 4) (Rational (-9) 8) <> Panic s) /\
+  num_div Debug (Rational 3 4) (Rational (-9) 8) = Ok (Rational (-2) 3) /\
+  num_div Debug (BigInt 10) (Rational 4 3) = Ok (Rational 15 2) /\
+  num_div Release (Rational (2 ^ 31 - 1) 2) (Fixnum (2 ^ 31 - 1)) = Ok (Rational 1 2) /\
+  (exists s, num_div Debug (Fixnum 0) (Rational (- 2 ^ 31) 3) = Panic s).
+Proof.
+  repeat split; try (intros s; vm_compute; discriminate); try (vm_compute; reflexivity).
+  eexists; vm_compute; reflexivity.
+Qed.
 
 (* C08_modulo_exact: hypotheses satisfiable on each interesting arm, incl. Fixnum by n/1 *)
 Example C08_example_modulo :
